@@ -93,7 +93,7 @@ def translate_format_default(src):
         raise Shape("condition " + ast.dump(e))
 
     def value(e):
-        """Lean term of type `Option Text` for a returned expression."""
+        """Lean term of type `Option Chars` for a returned expression."""
         if isinstance(e, ast.Constant) and e.value is None:
             tags.append("none")
             return "none"
@@ -151,7 +151,7 @@ def translate_format_default(src):
     body = block(fn.body, None)
     lean = ("/-- `_format_default_value`, translated statement by statement. `s` is the schema (only the\n"
             "    `print_ast(ast_node_from_value(..))` form looks at it), `hasDefault`/`dv`/`ty` are the attributes of the input value. -/\n"
-            "def formatDefaultValue (s : SchemaD) (hasDefault : Bool) (dv : J) (ty : Ty) : Option Text :=\n  %s\n" % body)
+            "def formatDefaultValue (s : SchemaD) (hasDefault : Bool) (dv : J) (ty : Ty) : Option Chars :=\n  %s\n" % body)
     return lean, tags
 
 
@@ -264,7 +264,7 @@ def cases(ctx):
         for p in sorted(d.glob("*.json")):
             c = json.loads(p.read_text())
             yield ("corpus:" + p.stem,) + load_case(c)
-    n = ctx.n(14, 90)
+    n = ctx.n(8, 60)
     for i in range(n):
         if ctx.time_left() < (20 if ctx.tier == "quick" else 90):
             ctx.notes.append("stopped generating after %d schemas (time budget)" % i)
